@@ -86,8 +86,11 @@ class LoopSpec:
     def check_body(self, interp, fr, name):
         sf = self._frame(interp, fr)
         for i, cl in enumerate(self.body_ensures):
+            label = None
+            if isinstance(cl, tuple):        # (label, clause): a readable obligation name instead of the ordinal
+                label, cl = cl
             v = eval_clause(interp, cl, sf)
-            interp.ctx.prove("%s#%d" % (name, i), v, kind="loop-body", detail=cl, top=True)
+            interp.ctx.prove("%s#%d" % (name, i) if label is None else "%s/%s" % (name, label), v, kind="loop-body", detail=cl, top=True)
 
     def _frame(self, interp, fr):
         prog = interp.ctx.prog
